@@ -64,7 +64,11 @@ def host_values(kind):
             out.append(dct)
         return out
     if kind == 'mapping':
-        return [dct, ('intdict', lambda: {'a': 1, 'b': 2}), odd]
+        # mapping subclasses hosts really use: a lookup of a missing key INSERTS it into a defaultdict
+        ddl = ('defaultdict-list', lambda: collections.defaultdict(list, {'b': [2], 'zz': [9]}))
+        ddi = ('defaultdict-int', lambda: collections.defaultdict(int, {'b': 2, 'zz': 9}))
+        odt = ('ordereddict', lambda: collections.OrderedDict([('b', 2), ('a', [1])]))
+        return [dct, ('intdict', lambda: {'a': 1, 'b': 2}), odd, ddl, ddi, odt]
     if kind == 'set':
         return [st]
     return []
